@@ -147,6 +147,12 @@ def run_split(R, rng, sp, label, tier, force_sequence=False):
         # root alone again — every link must behave like a fresh process linking the same roots
         if sp.libs and (force_sequence or rng.random() < 0.6):
             link_sequence_shared_objects(R, rng, tmp, sp, root_names, gl0, label)
+        # ONE linker used incrementally: a root is added, the program linked, the next root added, linked again ...; after
+        # each step the program must be the one a fresh linker gives for the roots added so far
+        if len(root_names) > 1 and rng.random() < 0.7:
+            incremental_linker(R, rng, tmp, sp, root_names, gl0, label)
+        if force_sequence or rng.random() < 0.3:
+            duplicate_via_imports(R, tmp, label)
         # duplicate definitions across two added modules must fail the link
         for what in ("function", "global"):
             a = "dupa_%s" % what
@@ -204,6 +210,66 @@ def link_sequence_shared_objects(R, rng, tmp, sp, root_names, gl0, label):
                         {"sources": {n: sp.layouts[n][0] for n in sp.layouts}, "sequence": [r["modules"] for r in rounds], "failing_link": k})
             return
     R.count("link_sequences_agree")
+
+
+def duplicate_via_imports(R, tmp, label):
+    """two libraries of the import closure define the same function (different bodies) and are reached over different import
+    paths, so no single compilation sees both: the link has to fail whichever of them is loaded first (two namings)"""
+    for tag, (ga, ua) in (("n1", ("dgeom", "dutil")), ("n2", ("xdgeom", "adutil")), ("n3", ("adgeom", "xdutil"))):
+        texts = {
+            ga: "function dclamp (int x) -> int {\n  if (x > 100) {\n    return 100;\n  }\n  return x;\n}\nfunction darea (int w, int h) -> int {\n  return dclamp(w) * dclamp(h);\n}\n",
+            ua: "function dclamp (int x) -> int {\n  if (x > 255) {\n    return 255;\n  }\n  return x;\n}\n",
+            "dpaint_" + tag: 'import "%s";\nfunction dshade (int c) -> int {\n  return dclamp(c * 2);\n}\n' % ua,
+            "dtop_" + tag: 'import "%s";\nimport "dpaint_%s";\nexport function dmain (int a) -> int {\n  return darea(a, 2) + dshade(a);\n}\n' % (ga, tag),
+        }
+        ok = True
+        for n in (ga, ua, "dpaint_" + tag, "dtop_" + tag):
+            with open(os.path.join(tmp, n + ".nsl"), "w") as f:
+                f.write(texts[n])
+            rc, out = runner.nslc(tmp, n + ".nsl", n + ".nslir")
+            ok = ok and rc == 0
+            if not ok:
+                break
+        if not ok:
+            R.count("duplicate_via_imports_rejected_by_the_compiler")
+            continue
+        res = runner.helper("loadrun", {"cwd": tmp, "modules": ["dtop_" + tag + ".nslir"], "calls": [["dmain", {"a": 90}, {}]], "listing_of": None})
+        R.count("duplicate_definition_links")
+        R.evaluations += 1
+        if not res.get("error"):
+            R.violation("duplicate-function-via-imports-not-rejected", "%s: libraries %s and %s both define dclamp(int); the link succeeds and dmain(90) = %s"
+                        % (label, ga, ua, [g.get("value") for g in res.get("results", [])]), {"sources": texts, "add_order": ["dtop_" + tag]})
+        else:
+            R.count("duplicate_rejected")
+
+
+def incremental_linker(R, rng, tmp, sp, root_names, gl0, label):
+    funcs_of = {n: [f for f in fs if f.exported] for n, fs, _, _ in sp.roots}
+    order = list(root_names)
+    rng.shuffle(order)
+    rounds, fresh_rounds = [], []
+    for k, r in enumerate(order):
+        calls = [[f.name, {"x": x}, gl0] for rr in order[:k + 1] for f in funcs_of[rr] for x in INPUT_X[:2]]
+        rounds.append({"modules": [r + ".nslir"], "calls": calls})
+        fresh_rounds.append({"modules": [rr + ".nslir" for rr in order[:k + 1]], "calls": calls})
+    inc = runner.helper("relink", {"cwd": tmp, "one_linker": True, "rounds": rounds})
+    R.count("relink_processes")
+    if inc.get("error") or len(inc.get("rounds", [])) != len(rounds):
+        R.inconclusive.append("incremental-link helper failed: %s" % inc.get("error"))
+        return
+    for k, rd in enumerate(fresh_rounds):
+        fresh = runner.helper("relink", {"cwd": tmp, "rounds": [rd]})
+        R.count("relink_processes")
+        R.evaluations += 1
+        if fresh.get("error") or not fresh.get("rounds"):
+            continue
+        if inc["rounds"][k] != fresh["rounds"][0]:
+            R.violation("incremental-link-differs:%s" % ("late-module-without-imports" if not [i for n, _, i, _ in sp.roots if n == order[k]][0] else "late-module-with-imports"),
+                        "%s: after adding %s to a linker that had already linked %s, Link() gives a program that behaves differently from a fresh link of the same "
+                        "modules: %s vs %s" % (label, order[k], order[:k], str(inc["rounds"][k])[:150], str(fresh["rounds"][0])[:150]),
+                        {"sources": {n: sp.layouts[n][0] for n in sp.layouts}, "add_sequence": order, "failing_step": k})
+            return
+    R.count("incremental_link_sequences_agree")
 
 
 def relink_after_restore(R, rng, tmp, sp, root_names, root_funcs, gl0, label):
